@@ -16,7 +16,7 @@ for line in design.splitlines():
     cells = [c.strip() for c in line.strip().strip("|").split("|")]
     if len(cells) != 3:
         continue
-    for m in re.finditer(r"(r[234]-)?C\d\d-[ABC]", cells[0]):
+    for m in re.finditer(r"(r[2345]-)?C\d\d-[ABC]", cells[0]):
         rows[m.group(0)] = cells
 triage = {}
 for f in sys.argv[1:]:
@@ -27,7 +27,7 @@ SUITE_CMD = ("pytest -q -p no:cacheprovider --timeout=1800 -n 4 --deselect tests
              "the pinned suite) on a scratch worktree of /repo HEAD with the patch applied; tests/QGMRES/test_qgmres_large.py -k "
              "test_qgmres_large_scale additionally when the patch touches solver.py / utils.py / data_gen.py / decomp/LU.py")
 kept, dropped = [], []
-for root, prefix in (("/tmp/mw", ""), ("/tmp/mw2", "r2-"), ("/tmp/mw3", "r3-"), ("/tmp/mw4", "r4-")):
+for root, prefix in (("/tmp/mw", ""), ("/tmp/mw2", "r2-"), ("/tmp/mw3", "r3-"), ("/tmp/mw4", "r4-"), ("/tmp/mw5", "r5-")):
     cdir = os.path.join(root, "confirm")
     if not os.path.isdir(cdir):
         continue
